@@ -37,7 +37,7 @@ def execute(case, monitors, iter_cap=400):
     if kind == "crash_resume" and case.get("fs_fault"):
         plan = {int(case["fs_fault"]["at"]): dict(kind=case["fs_fault"].get("kind", "crash.process"), cut_seed=case["fs_fault"].get("cut_seed", 0))}
     try:
-        with w.incarnation(plan=plan, like_fault=lf, rng_record=case.get("rng_record", 0)) as inc:
+        with w.incarnation(plan=plan, like_fault=lf, rng_record=case.get("rng_record", 0), extremes=case.get("rng_extreme")) as inc:
             s = inc.new_sampler()
             info["sampler"] = s
             try:
@@ -76,6 +76,8 @@ def execute(case, monitors, iter_cap=400):
                 info["exc_site"] = f"{site[-1].filename.split('/tempest/')[-1]}:{site[-1].name}" if site else "?"
                 forget(e)
             info["iters"].append(inc.n_commits)
+            if inc.rng.extremes_fired:
+                w.bump("fault.fired.rng.extreme", inc.rng.extremes_fired)
         if kind == "crash_resume" and info["crashed"]:
             ck = latest_checkpoint(w.fs)
             info["resume_from"] = ck
